@@ -298,7 +298,7 @@ def twin_pairs(tier):
                 continue
             nm = dut.structureName()
         except Exception:
-            py4hw.Wire.prepared = []
+            core.reset_prepared()
             continue
         groups.setdefault(nm, []).append((s, c))
     pairs = []
